@@ -38,9 +38,19 @@ Lemma pair_in_has_kv k v k1 v1 k2 v2 k3 v3 :
   pair_in k v [(k1, v1); (k2, v2); (k3, v3)] = has_kv k v (FTer k1 v1 k2 v2 k3 v3).
 Proof. unfold pair_in, has_kv. simpl. now rewrite orb_false_r, orb_assoc. Qed.
 
-Theorem ja_unary_symbol x : result_ternary x -> unary_rule_symbol x = Ok_ (ja_unary_label x).
+Definition targets (x : cat) (t : unary_table) : list cat := match table_get x t with Some rs => rs | None => [] end.
+Definition unary_result (lab : text) (c : cat) : cres := {| rcat := c; op_string := lab; op_symbol := lab; head_is_left := true |}.
+
+Lemma mapM_ok {A B} (f : A -> res B) (g : A -> B) l : (forall a, In a l -> f a = Ok_ (g a)) -> mapM f l = Ok_ (map g l).
 Proof.
-  unfold result_ternary, unary_rule_symbol, ja_unary_label, arg_of. cbn [bind]. rewrite arg_0.
+  induction l as [|a l IH]; intros H; simpl; [reflexivity|].
+  rewrite (H a (or_introl eq_refl)). simpl. rewrite IH by (intros; apply H; now right). reflexivity.
+Qed.
+(* _unary_rule_symbol is inlined into the per-result body of apply_unary_rules by the translator; the label is what that body
+   puts into op_string and op_symbol *)
+Theorem ja_unary_symbol x c : result_ternary x -> unary_body x c = Ok_ (unary_result (ja_unary_label x) c).
+Proof.
+  unfold result_ternary, unary_body, ja_unary_label, unary_result, arg_of. rewrite arg_0.
   destruct (snd (result_atom x)) as [| |k1 v1 k2 v2 k3 v3]; try contradiction. intros _.
   cbn [feature_of bind feature_items]. rewrite !pair_in_has_kv.
   change lit_24 with sh_S. change lit_25 with sh_S_NP. change lit_26 with sh_S_NP_NP.
@@ -51,24 +61,16 @@ Proof.
   destruct (shape_is x sh_S_NP); [reflexivity|]. destruct (shape_is x sh_S_NP_NP); reflexivity.
 Qed.
 (* outside the domain: the result atom carries a unary feature (or none) - AttributeError *)
-Theorem ja_unary_symbol_domain x : ~ result_ternary x -> unary_rule_symbol x = Err AttrErr.
+Theorem ja_unary_symbol_domain x c : ~ result_ternary x -> unary_body x c = Err AttrErr.
 Proof.
-  unfold result_ternary, unary_rule_symbol, arg_of. cbn [bind]. rewrite arg_0.
+  unfold result_ternary, unary_body, arg_of. rewrite arg_0.
   destruct (snd (result_atom x)); [reflexivity | reflexivity | intros H; elim H; exact I].
 Qed.
 
-Definition targets (x : cat) (t : unary_table) : list cat := match table_get x t with Some rs => rs | None => [] end.
-Definition unary_result (lab : text) (c : cat) : cres := {| rcat := c; op_string := lab; op_symbol := lab; head_is_left := true |}.
-
-Lemma mapM_ok {A B} (f : A -> res B) (g : A -> B) l : (forall a, In a l -> f a = Ok_ (g a)) -> mapM f l = Ok_ (map g l).
-Proof.
-  induction l as [|a l IH]; intros H; simpl; [reflexivity|].
-  rewrite (H a (or_introl eq_refl)). simpl. rewrite IH by (intros; apply H; now right). reflexivity.
-Qed.
 Lemma unary_body_ok x c : result_ternary x -> unary_body x c = Ok_ (unary_result (ja_unary_label x) c).
-Proof. intros H. unfold unary_body. cbn [bind]. rewrite (ja_unary_symbol x H). reflexivity. Qed.
+Proof. exact (ja_unary_symbol x c). Qed.
 Lemma unary_body_err x c : ~ result_ternary x -> unary_body x c = Err AttrErr.
-Proof. intros H. unfold unary_body. cbn [bind]. rewrite (ja_unary_symbol_domain x H). reflexivity. Qed.
+Proof. exact (ja_unary_symbol_domain x c). Qed.
 
 Theorem ja_unary_rules x t : result_ternary x ->
   apply_unary_rules x t = Ok_ (map (unary_result (ja_unary_label x)) (targets x t)).
